@@ -158,7 +158,7 @@ def compile_c(code: str, extra_flags: tuple[str, ...] = ()) -> Any:
                         "-w", "-shared", "-fPIC", *extra_flags, "-o", sopath, cpath, "-lm"],
                        capture_output=True, text=True)
     if r.returncode != 0:
-        raise CodegenFailure("gcc", None, r.stderr[-1500:])
+        raise CodegenFailure("gcc", None, r.stderr[:1200] + "\n...\n" + r.stderr[-800:])
     lib = ctypes.CDLL(sopath)
     _lib_cache[key] = lib
     try:
